@@ -1175,3 +1175,46 @@ def stmt_family_cases(rnd, quick):
             lists.add(v.encode() + b";" + w.encode())
             lists.add(v.encode() + b" ; " + w.encode() + b";")
     return sorted(single), sorted(lists)
+
+
+# ---------------------------------------------------------------- long lists, many-line error ranges, calls with clauses inside the parentheses
+def long_lists():
+    """node-slice fields with more than 256 / 1024 elements (batching, growth and stack handling of traversals and printers)"""
+    out = []
+    for n in (257, 300, 700, 1100):
+        cols = ", ".join("c%d" % i for i in range(n))
+        nums = ", ".join(str(i) for i in range(n))
+        out.append(("ParseQuery", ("SELECT %s FROM t" % cols).encode()))
+        out.append(("ParseExpr", ("x IN (%s)" % nums).encode()))
+        out.append(("ParseExpr", ("[%s]" % nums).encode()))
+        out.append(("ParseExpr", ("f(%s)" % nums).encode()))
+        out.append(("ParseDML", ("INSERT INTO t (a) VALUES %s" % ", ".join("(%d)" % i for i in range(n))).encode()))
+        out.append(("ParseDDL", ("CREATE TABLE t (%s) PRIMARY KEY (c0)" % ", ".join("c%d INT64" % i for i in range(n))).encode()))
+        out.append(("ParseStatements", ("; ".join("SELECT %d" % i for i in range(n))).encode()))
+        out.append(("ParseQuery", ("SELECT * FROM t WHERE " + " AND ".join("c%d = %d" % (i, i) for i in range(n))).encode()))
+    return out
+
+
+Q3 = b"'" * 3
+DQ3 = b'"' * 3
+MULTILINE_ERRORS = [b"SELECT 1,\n  /* TODO\n\n\n\n     the rest\nFROM t\n", b"SELECT " + DQ3 + b"a\nb\nc\nd\ne\nf", b"SELECT 1;\nSELECT r" + Q3 + b"x\n\n\n\n\n\ny",
+                    b"@{FORCE_INDEX=_BASE_TABLE}\n-- a\n-- b\n-- c\nCALL cancel_query('1')", b"@{a=1}\n\n\n\n\n\nDROP TABLE t",
+                    b"SELECT (\n1\n,\n2\n,\n3\n,\n4 5\n)", b"/*\n\n\n\n\n\n", b"SELECT " + Q3 + b"\n\n\n\n\n", b"SELECT 1 +\n\n\n\n\n\n/* x",
+                    b"SELECT 1\n\n\n\n\n\n\n+", b"SELECT\n\n\n\n\n\n\n\n\n\n\n\n1 1"]
+
+CALL_CLAUSE_PROBES = [("ParseExpr", b"ARRAY_AGG(x ORDER BY y)"), ("ParseExpr", b"ARRAY_AGG(DISTINCT x IGNORE NULLS ORDER BY x DESC LIMIT 3)"), ("ParseExpr", b'STRING_AGG(name, ", " LIMIT 2)'),
+                      ("ParseExpr", b"ARRAY_AGG(x HAVING MAX y ORDER BY z)"), ("ParseQuery", b"SELECT ARRAY_AGG(x ORDER BY y LIMIT 1) FROM t"), ("ParseExpr", b"f(x ORDER BY y, z DESC)"),
+                      ("ParseExpr", b"COUNT(* LIMIT 1)"), ("ParseExpr", b"ARRAY_CONCAT_AGG(x ORDER BY y)")]
+
+
+def same_length_line_pairs(inputs):
+    """for each input with a blank: the input and a copy with one blank replaced by a line feed (same length, other line table)"""
+    out = []
+    for x in inputs:
+        idx = [i for i, c in enumerate(x) if c == 0x20]
+        if not idx:
+            continue
+        for i in (idx[0], idx[-1], idx[len(idx) // 2]):
+            out.append(x)
+            out.append(x[:i] + b"\n" + x[i + 1:])
+    return out
